@@ -1,6 +1,124 @@
-import DdsModel.Drv.Util
+import DdsModel.Progress
+import DdsModel.Drv.C14
+namespace Dds.Drv.C17
+open Dds.Drv.C14
+open Dds
+
+def parseColor : String → Option ColorFormat
+  | "g8" => some ⟨.gray, .u8⟩ | "a8" => some ⟨.alpha, .u8⟩ | "rgb8" => some ⟨.rgb, .u8⟩
+  | "rgba8" => some ⟨.rgba, .u8⟩ | "g16" => some ⟨.gray, .u16⟩ | "a16" => some ⟨.alpha, .u16⟩
+  | "rgb16" => some ⟨.rgb, .u16⟩ | "rgba16" => some ⟨.rgba, .u16⟩ | "g32" => some ⟨.gray, .f32⟩
+  | "a32" => some ⟨.alpha, .f32⟩ | "rgb32" => some ⟨.rgb, .f32⟩ | "rgba32" => some ⟨.rgba, .f32⟩
+  | _ => none
+
+def fmtRat (q : Rat) : String := s!"{q.num}/{q.den}"
+def fmtRats (l : List Rat) : String := ",".intercalate (l.map fmtRat)
+
+def insertSorted (x : Rat) : List Rat → List Rat
+  | [] => [x]
+  | y :: t => if x ≤ y then x :: y :: t else y :: insertSorted x t
+def sortRats (l : List Rat) : List Rat := l.foldr insertSorted []
+
+def diffs : List Rat → List Rat
+  | a :: b :: t => (b - a) :: diffs (b :: t)
+  | _ => []
+
+/-- `get_maximum_mipmap_count(max(w,h))`: `32 - leading_zeros`, at least 1 -/
+def mipCount (w h : Nat) : Nat := max 1 (if max w h = 0 then 0 else Nat.log2 (max w h) + 1)
+
+/-- `Size::get_mipmap(level)` -/
+def mipDim (d l : Nat) : Nat := max 1 (d / 2 ^ l)
+
+structure C17Case where
+  encoderApi : Bool
+  name : String
+  w : Nat
+  h : Nat
+  color : ColorFormat
+  dith : Dithering
+  q : Quality
+  mips : Bool
+  par : Bool
+  mt : Bool
+  nf : Nat
+
+/-- the run of one level; fragment submissions in index order (the order does not matter for what
+is printed, see `C17.parallel_monotone`) -/
+def levelRun (c : C17Case) (sup : Option Support) (encs : List PgEnc) (w h : Nat) :
+    Option (LevelRun × Nat × Bool) := do
+  let (w, h) := normSize w h
+  let e ← pickEncoder encs c.color c.dith
+  let fam := familyOf e.kind w h c.color c.q
+  let sv := SplitView.new w h sup c.dith c.q
+  let hs := sv.fragments.filterMap (fun f => f.map (·.2))
+  if !c.par then some (.seq fam, sv.len, true)
+  else if sv.len = 1 then some (.parSingle fam, sv.len, true)
+  else
+    let uniform := hs.all (fun x => some x == hs.head?)
+    some (.par c.mt hs (h + 1), sv.len, uniform || !c.mt)
+
+/-- `write` events after the first report of 1 -/
+def lateWrites : List Ev → Nat
+  | [] => 0
+  | .report p :: t => if p = 1 then writes t else lateWrites t
+  | _ :: t => lateWrites t
+
+def resName (ok : Bool) : String := if ok then "ok" else "cancelled"
+
+def sweepKs (n : Nat) : List Nat :=
+  if n ≤ 96 then List.range n else (List.range 96).map (fun i => i * (n - 1) / 95)
+
+def runC17 (line : String) : String :=
+  match toks line with
+  | ["run", api, name, w, h, color, d, q, mips, par, _th, _order, rep, cancel, _seed, nf] =>
+    match supportOf name with
+    | none => "bad-case"
+    | some sup =>
+    match nat? w, nat? h, parseColor color, parseDith d, parseQuality q,
+        (if nf.startsWith "nf=" then nat? (nf.drop 3).toString else none) with
+    | some w, some h, some color, some d, some q, some nf =>
+      let c : C17Case := { encoderApi := api == "E", name, w, h, color, dith := d, q,
+                           mips := mips == "1", par := par == "1", mt := rep == "mt", nf }
+      if (api ≠ "E" ∧ api ≠ "F") ∨ (c.mips ∧ !c.encoderApi) then "bad-case" else
+      match sup, encodersOf name with
+      | none, _ => "err:UnsupportedFormat"
+      | some _, none => "not-modelled"
+      | some s, some encs =>
+        let sizes : List (Nat × Nat) :=
+          if c.mips then (List.range (mipCount w h)).map (fun l => (mipDim w l, mipDim h l))
+          else [(w, h)]
+        match sizes.mapM (fun (x : Nat × Nat) => levelRun c (some s) encs x.1 x.2) with
+        | none | some [] => "not-modelled"
+        | some ((lv0, len0, det0) :: rest) =>
+          if len0 ≠ nf then s!"bad-nf model={len0}" else
+          let tr := if c.encoderApi then surfaceTrace lv0 (rest.map (·.1)) else lv0.trace
+          let det := det0 && rest.all (·.2.2)
+          let anyPar := c.par && c.mt && (len0 > 1 || rest.any (fun x => x.2.1 > 1))
+          let full := exec none tr false 0
+          let n := full.reports.length
+          match cancel with
+          | "-" =>
+            if det then s!"ok n={n} late={lateWrites tr} seq={fmtRats full.reports}"
+            else
+              s!"ok n={n} late={lateWrites tr} last={fmtRats (full.reports.drop (n - 1))} dif={fmtRats (sortRats (diffs (0 :: full.reports)))}"
+          | "pre" =>
+            let o := exec none tr true 0
+            s!"{resName o.ok} n={o.reports.length} written={o.writes} retry={resName full.ok} n2={n}"
+          | "sweep" =>
+            let rs := (sweepKs n).map (fun k => (exec (some k) tr false 0).ok)
+            s!"sweep ok n={n} cancelled={(rs.filter (!·)).length} ok={(rs.filter (·)).length}"
+          | k =>
+            if !k.startsWith "k" then "bad-case" else
+            match nat? (k.drop 1).toString with
+            | none => "bad-case"
+            | some k =>
+              let o := exec (some k) tr false 0
+              if anyPar then resName o.ok else s!"{resName o.ok} n={o.reports.length}"
+    | _, _, _, _, _, _ => "bad-case"
+  | _ => "bad-case"
+
+end Dds.Drv.C17
+
 namespace Dds.Drv
-
-def runC17 (_line : String) : String := "not-modelled"
-
+def runC17 : String → String := C17.runC17
 end Dds.Drv
